@@ -255,6 +255,45 @@ func c01(r *mon.Run) {
 			res, _, _ := cx.runBoth(tree, expr, doc)
 			c01Account(t, tree, expr, doc, res, i)
 		}})
+	// members called true, false, null (JMESPath has no keywords: these are ordinary names), absent or holding
+	// every kind of value, false-like ones in particular
+	kwNames := []string{"true", "false", "null"}
+	kwVals := []interface{}{"<absent>", false, "", []interface{}{}, map[string]interface{}{}, float64(0), "x", nil, true, []interface{}{float64(1)}}
+	const kwForms = 8
+	ws = append(ws, mon.Workload{Name: "keyword-named-members", N: len(kwNames) * len(kwVals) * kwForms,
+		Do: func(i int, t *mon.Tally) {
+			name := kwNames[i/kwForms/len(kwVals)]
+			val := kwVals[i/kwForms%len(kwVals)]
+			obj := map[string]interface{}{"other": "o"}
+			if s, isStr := val.(string); !isStr || s != "<absent>" {
+				obj[name] = val
+			}
+			k := &gen.Expr{K: gen.KField, Name: name} // written bare, without quotes
+			var doc interface{} = obj
+			var tree *gen.Expr
+			switch i % kwForms {
+			case 0:
+				tree = k
+			case 1:
+				tree, doc = gen.Chain(gen.Field("o"), gen.Step{K: gen.SField, Name: name}), map[string]interface{}{"o": obj}
+			case 2:
+				tree = gen.MultiList(k, gen.Field("other"))
+			case 3:
+				tree = gen.MultiHash([]gen.Key{{Name: name}}, []*gen.Expr{k})
+			case 4:
+				tree, doc = gen.Chain(gen.Field("rows"), gen.StListStar(), gen.Step{K: gen.SField, Name: name}), map[string]interface{}{"rows": []interface{}{obj, map[string]interface{}{}, float64(1)}}
+			case 5:
+				tree, doc = gen.Chain(gen.Field("missing"), gen.Step{K: gen.SField, Name: name}), obj
+			case 6:
+				tree, doc = gen.Chain(k, gen.StMultiList(gen.Current(), gen.Raw("x"))), obj
+			default:
+				tree, doc = gen.Pipe(k, gen.Current()), float64(5) // the current node is not an object
+			}
+			expr := gen.SpellTight(tree)
+			cx := &caseCtx{r, t, "keyword-named-members", i}
+			res, _, _ := cx.runBoth(tree, expr, doc)
+			c01Account(t, tree, expr, doc, res, i)
+		}})
 	nrand := tierPick(r, 40000, 1000000)
 	ws = append(ws, mon.Workload{Name: "core-random", N: nrand,
 		Do: func(i int, t *mon.Tally) {
